@@ -9,7 +9,8 @@
 (*             listing omits returned: served | refused | none                              *)
 (*   end       end of the history                                                           *)
 (* Property level (VIOLATION), clause Robust of Dir:                                        *)
-(*   Robust.Answered       the response is a success listing                                *)
+(*   Robust.Answered       the response is a success listing (unless the server refuses the *)
+(*                         DIRECTORY's own selector: no child is involved, drift only)      *)
 (*   Robust.HealthyListed  every healthy visible child is listed - healthy judged on the    *)
 (*                         implementation: an omitted child that the model's pinned filter  *)
 (*                         calls healthy is a violation iff the server SERVES it by exact   *)
@@ -43,16 +44,22 @@ Touches(e) == UNCHANGED <<dvars, pred, pending>> /\ seen' = e.names /\ verdict' 
 Response(e) ==
     LET obs     == [kind |-> e.status, listing |-> e.listing]
         mdl     == Pipeline(d, raw)
-        v       == IF obs.kind # "ok" THEN "Robust.Answered"
+        \* the server refuses the directory ITSELF by its own selector (e.g. its name is rejected by the code's filter):
+        \* no child took the listing down - outside the property, reported as drift
+        refused == obs.kind # "ok" /\ e.dirrefused
+        v       == IF refused THEN "ok"
+                   ELSE IF obs.kind # "ok" THEN "Robust.Answered"
                    ELSE IF ~(ListedNames(d, obs.listing) \subseteq Visible(d)) THEN "Robust.OnlyVisible"
                    ELSE "ok"
         missing == IF obs.kind = "ok" THEN Healthy(d) \ ListedNames(d, obs.listing) ELSE {}
     IN /\ p' = [p EXCEPT !.out = mdl] /\ pc' = "done" /\ UNCHANGED <<d, raw, j, pred, seen>>
        /\ pending' = missing
        /\ verdict' = IF pc = "done" THEN "unmatched" ELSE v
-       /\ (IF v # "ok" \/ missing # {} \/ obs \in pred.outs THEN TRUE
+       /\ (IF ~refused THEN TRUE
+           ELSE RecordDrift(tid, l, "the server refuses the directory itself by its own selector (the model lists it)"))
+       /\ (IF v # "ok" \/ refused \/ missing # {} \/ obs \in pred.outs THEN TRUE
            ELSE RecordDrift(tid, l, "listing differs from the pipeline model"))
-       /\ (IF v # "ok" \/ seen \in pred.touches THEN TRUE
+       /\ (IF v # "ok" \/ refused \/ seen \in pred.touches THEN TRUE
            ELSE RecordDrift(tid, l, "children inspected in another order than the model predicts"))
 
 \* what the server answered when the omitted child was requested by its exact selector (same protocol form)
